@@ -21,3 +21,23 @@ Lemma builtin_table_ok :
   /\ bytes_list_eqb gen_builtin_registered (map (fun p => w (fst p)) builtin_expected) = true.
 Proof. vm_compute. repeat split; reflexivity. Qed.
 
+
+(* C07: Router::new registers the built-ins by `router.constraint::<T>().unwrap()`, once per registered type, in the
+   regenerated order; Router::constraint fails exactly on a name already present.  The model call for each of them,
+   starting from the empty router, returns Ok - so none of the unwraps can panic. *)
+From WF Require Import Model.Tree Model.Router.
+Definition new_router_registrations : list (bytes * bytes) :=
+  filter_map (fun ty : bytes =>
+    option_map (fun x : bytes * bytes * bool => (snd (fst x), ty))
+               (List.find (fun x : bytes * bytes * bool => beqb (fst (fst x)) ty) gen_builtin_impls))
+    gen_builtin_registered.
+Definition router_new_c : router * bool :=
+  fold_left (fun (acc : router * bool) (nt : bytes * bytes) =>
+               let '(r', res) := rconstraint (fst acc) (fst nt) (snd nt) in
+               (r', snd acc && match res with ROk _ => true | _ => false end)%bool)
+            new_router_registrations (Router empty_node [], true).
+Lemma router_new_unwraps_ok :
+  length new_router_registrations = length gen_builtin_registered
+  /\ snd router_new_c = true
+  /\ map fst (r_constraints (fst router_new_c)) = map fst new_router_registrations.
+Proof. vm_compute. repeat split; reflexivity. Qed.
